@@ -213,8 +213,11 @@ class C09(Prop):
     WEIGHTS = [3, 3, 3, 3, 2, 1, 2, 1, 1, 1]
 
     def gen(self, rng, tier, seed):
-        cfg = gen.gen_base_cfg(rng, seed, kinds=('obedient', 'slow',
-                                                 'stubborn', 'selfexit'))
+        cfg = gen.gen_base_cfg(rng, seed, max_age_p=0.1,
+                               stop_signals=(15, 15, 15, 2, 10),
+                               respawn=rng.choice([True, True, True, False]),
+                               kinds=('obedient', 'slow',
+                                      'stubborn', 'selfexit'))
         n = rng.choice([2, 3, 4, 6, 8, 12]) if tier == 'quick' else \
             rng.choice([2, 3, 5, 8, 12, 20])
         ops = gen.gen_history(rng, cfg, n, self.REQS, self.WEIGHTS)
